@@ -14,7 +14,8 @@ BATCH = 2500
 RULE = ("one case = one schedule: a BucketLeapArray (n in 1..4 buckets, bucket length 1..500 ms) pre-filled sequentially, then a round of "
         "2-3 threads (1-2 operations each: add/conc/count/viewsum) started with clock readings on both sides of a bucket boundary at which "
         "a slot is recycled, run under the yield-hook scheduler with an explicit schedule (thread ids + clock ticks), drained round-robin, "
-        "optionally followed by a sequential read-back round. Enumerated part: every interleaving (depth-first on the model, each replayed "
+        "optionally followed by a sequential read-back round; slices: inside the known-finding region, sequential walks with gaps up to several laps, "
+        "far time jumps (k*2^32, 2^31, 2^33 ms +- bucket/interval) inside and between the phases. Enumerated part: every interleaving (depth-first on the model, each replayed "
         "on the real package) of fixed 2-thread configurations; generated part: random schedules with runs and ticks. non-trivial = a slot "
         "reset (bla.reset.start) ran in a round with another live thread; distinct by (geometry, programs, interleaving of yield points)")
 
@@ -75,6 +76,69 @@ def rand_sched(rng, k, L):
     return " ".join(out)
 
 
+def far_jump(rng, L, I):
+    """a quiet period around a power-of-two number of milliseconds: k*2^32 (the width of intervalInMs / bucketLengthInMs),
+    2^31, 2^33, plus/minus {0, 1, bucket, interval, ...} — ages that a narrowed or signed time difference would wrap"""
+    base = rng.choice([2 ** 32, 2 ** 32, 2 ** 32, 2 * 2 ** 32, 3 * 2 ** 32, 2 ** 31, 2 ** 33, rng.randint(4, 1000) * 2 ** 32])
+    d = rng.choice([0, 0, 1, -1, L, -L, I, -I, L - 1, L + 1, I - 1, I + 1, 2 * I, rng.randint(0, 2 * I), rng.randint(0, 2 * I)])
+    return base + d
+
+
+def gen_far_seq(rng, cid):
+    """sequential: every slot filled, then a far time jump, then reads (and a fresh add + reads): nothing recorded before the
+    jump may be visible after it"""
+    n = rng.choice([2, 2, 3, 4])
+    L = rng.choice([1, 2, 10, 500, 500])
+    I = n * L
+    t0 = rng.choice([1, 2, 20, 1000]) * L + rng.choice([0, L - 1])
+    ops = [f"la.new {n} {I} {t0}"]
+    if rng.random() < 0.5:
+        d = rng.choice(divisors(n))
+        ops.append(f"view {rng.choice(divisors(d))} {d * L}")
+    clock = t0
+    for j in range(rng.choice([1, n, n, n + 1])):
+        ops += [f"thread 0 {clock} add pass {rng.choice([1, 3, 7])} ; add rt {rng.choice([5, 30])}", "sched"]
+        clock += L
+    for _ in range(rng.choice([1, 1, 2])):
+        clock += far_jump(rng, L, I)
+        rd = rng.choice(["count pass ; viewsum pass", "viewsum pass ; count pass ; count rt", "count pass"])
+        ops += [f"thread 0 {clock} {rd}", "sched"]
+        if rng.random() < 0.6:
+            ops += [f"thread 0 {clock} add pass 1 ; count pass ; viewsum pass", "sched"]
+            clock += rng.choice([0, 1, L - 1, L])
+            ops += [f"thread 0 {clock} count pass ; viewsum pass", "sched"]
+    return Case(cid, ops, tags=(f"n={n}", f"L={L}", "k=1", "far-jump-seq"))
+
+
+def gen_seq_walk(rng, cid):
+    """sequential walk: one thread per round, 4-12 rounds of adds and reads, gaps from less than a bucket to several laps (and the
+    occasional far jump), so that some slots stay untouched for more than a lap while their neighbours are live: sums must be exact"""
+    n = rng.choice([2, 2, 3, 3, 4])
+    L = rng.choice([1, 2, 10, 500, 500])
+    I = n * L
+    t0 = rng.choice([1, 2, 20, 1000]) * L + rng.choice([0, 1 % L, L - 1, rng.randrange(L)])
+    ops = [f"la.new {n} {I} {t0}"]
+    if rng.random() < 0.5:
+        d = rng.choice(divisors(n))
+        ops.append(f"view {rng.choice(divisors(d))} {d * L}")
+    clock = t0
+    for _ in range(rng.randint(4, 12)):
+        clock += rng.choice([0, 1, L - 1, L, L, L + 1, 2 * L, 2 * L, 2 * L + 1, I - 1, I, I + 1, I + L, 2 * I, 3 * L, rng.randint(0, 3 * I)])
+        if rng.random() < 0.04:
+            clock += far_jump(rng, L, I)
+        r = rng.random()
+        if r < 0.5:
+            prog = f"add pass {rng.choice([1, 2, 3, 4, 7])}"
+        elif r < 0.6:
+            prog = f"add pass {rng.choice([1, 3])} ; count pass"
+        elif r < 0.8:
+            prog = "count pass ; viewsum pass"
+        else:
+            prog = rng.choice(["viewsum pass", "viewsum pass ; count pass", "add rt 30 ; count rt", "conc 3 ; count pass"])
+        ops += [f"thread 0 {clock} {prog}", "sched"]
+    return Case(cid, ops, tags=(f"n={n}", f"L={L}", "k=1", "seq-walk"))
+
+
 def gen_known_region(rng, cid):
     """fixed slice inside the region of stale-counters-visible: a slot being recycled next to a reader of the same event"""
     n = rng.choice([1, 2, 2, 3])
@@ -92,8 +156,14 @@ def gen_known_region(rng, cid):
 
 
 def gen_case(rng, cid):
-    if rng.random() < 0.04:
+    r0 = rng.random()
+    if r0 < 0.04:
         return gen_known_region(rng, cid)
+    if r0 < 0.10:
+        return gen_far_seq(rng, cid)
+    if r0 < 0.22:
+        return gen_seq_walk(rng, cid)
+    far = rng.random() < 0.15          # this case contains far time jumps between its phases
     n = rng.choice([1, 2, 2, 2, 3, 4])
     L = rng.choice([1, 2, 10, 500, 500])
     I = n * L
@@ -108,9 +178,13 @@ def gen_case(rng, cid):
     # sequential pre-fill
     for _ in range(rng.choice([0, 1, 1, 2])):
         clock += rng.choice([0, 0, 1, L - 1, L])
+        if far and rng.random() < 0.4:
+            clock += far_jump(rng, L, I)
         prog = " ; ".join(rand_op(rng, reads=False) for _ in range(rng.randint(1, 3)))
         ops += [f"thread 0 {clock} {prog}", "sched"]
     # the concurrent round around a boundary at which a slot is recycled
+    if far and rng.random() < 0.6:
+        clock += far_jump(rng, L, I)   # the quiet period before the scheduled phase
     B = (clock // L) * L + rng.choice([1, max(1, n - 1), n, n, n, n + 1, 2 * n]) * L
     k = 2 if rng.random() < 0.75 else 3
     clocks = sorted(max(clock, B + rng.choice([-1, -1, 0, 0, 0, 1, L - 1, -L])) for _ in range(k))
@@ -122,8 +196,10 @@ def gen_case(rng, cid):
     end = clocks[-1] + ticks
     if rng.random() < 0.6:
         c = end + rng.choice([0, 0, 1, L - 1, L, I])
+        if far and rng.random() < 0.6:
+            c = end + far_jump(rng, L, I)
         ops += [f"thread 0 {c} count pass ; viewsum pass ; count rt", "sched"]
-    return Case(cid, ops, tags=(f"n={n}", f"L={L}", f"k={k}"))
+    return Case(cid, ops, tags=(f"n={n}", f"L={L}", f"k={k}") + (("far-jump",) if far else ()))
 
 
 def gen(ctx, n):
@@ -248,6 +324,15 @@ HUNT = [
      ["thread 0 2000 count pass ; viewsum pass", "sched"]),
     ("P-rt-rolling", ["la.new 2 1000 1000", "thread 0 1000 add rt 40 ; conc 3", "sched", "thread 0 2000 add rt 30", "thread 1 2001 add rt 20"],
      ["thread 0 2002 count rt", "sched"]),
+]
+J32 = 2 ** 32
+HUNT += [
+    ("P-far-gap-rolling-add-vs-count", ["la.new 2 1000 1000", "thread 0 1000 add pass 5", "sched", "thread 0 1500 add pass 6", "sched",
+                                       f"thread 0 {1500 + J32 + 204} add pass 1", f"thread 1 {1500 + J32 + 204} count pass"],
+     [f"thread 0 {1500 + J32 + 300} count pass ; viewsum pass", "sched"]),
+    ("P-far-gap-viewsum-vs-add", ["la.new 2 1000 1000", "thread 0 1000 add pass 5", "sched", "thread 0 1500 add pass 6", "sched",
+                                 f"thread 0 {1000 + 3 * J32 + 499} viewsum pass", f"thread 1 {1000 + 3 * J32 + 500} add pass 2"],
+     [f"thread 0 {1000 + 3 * J32 + 600} count pass ; viewsum pass", "sched"]),
 ]
 HUNT3 = [
     ("Q-two-adds-then-next-slot", PRE500 + ["thread 0 2000 add pass 1", "thread 1 2000 add pass 4", "thread 2 2500 add pass 2"],
